@@ -1,6 +1,7 @@
 /-
-C05 helper lemmas, part g: under the separation guard `compareValues` is the exact key comparison, hence
-`sortProcessor.less` is a strict weak order.  Core Lean only.
+C05 helper lemmas, part g: `compareValues` is the exact key comparison (for every value: numbers incl. ±Inf and
+NaN, strings, bool, null; every sort option; both directions), hence `sortProcessor.less` is a strict weak
+order on records of the right length.  Core Lean only.
 -/
 import SigModel.Model.SortCmp
 import SigModel.Lemmas.C05f
@@ -10,9 +11,6 @@ set_option linter.unusedVariables false
 namespace SigModel.Lemmas.C05
 open SigModel.SortCmp
 
-/-- what is assumed of the float64 rounding: 0 is exact and the tolerance literal rounds to something positive -/
-def RndOK (rnd : Rat → Rat) : Prop := rnd 0 = 0 ∧ 0 < rnd tolerance
-
 /-- the exact key of a value under a sort option -/
 def keyOf (rnd : Rat → Rat) (op : SortOp) (v : Val) : K :=
   match getRank v op with
@@ -20,61 +18,48 @@ def keyOf (rnd : Rat → Rat) (op : SortOp) (v : Val) : K :=
   | .string => .str (strOf v)
   | .numeric =>
     match floatOf rnd v with
-    | some (.fin q) => .num q
-    | _ => .other
+    | some f => .num f
+    | none => .other
 
-/-- a numerically ranked value is finite (no NaN, no ±Inf) -/
-def FinV (rnd : Rat → Rat) (op : SortOp) (v : Val) : Prop :=
-  getRank v op = .numeric → ∃ q, floatOf rnd v = some (.fin q)
+/-- a numerically ranked value always has a float value (the early returns of compareValues are dead) -/
+theorem numeric_floatOf (rnd : Rat → Rat) (op : SortOp) (v : Val) (h : getRank v op = .numeric) :
+    ∃ f, floatOf rnd v = some f := by
+  cases v with
+  | int i => exact ⟨_, rfl⟩
+  | float f t => exact ⟨_, rfl⟩
+  | str b pf =>
+    cases op <;> simp [getRank] at h
+    rcases h with ⟨hm, hp⟩
+    cases pf with
+    | none => simp at hp
+    | some f => exact ⟨f, by simp [floatOf, hm]⟩
+  | bool b => simp [getRank] at h
+  | null => simp [getRank] at h
 
-/-- two numerically ranked values that AlmostEquals identifies are equal -/
-def Sep (rnd : Rat → Rat) (op : SortOp) (a b : Val) : Prop :=
-  ∀ qa qb, floatOf rnd a = some (.fin qa) → floatOf rnd b = some (.fin qb) →
-    getRank a op = .numeric → getRank b op = .numeric →
-    almostEq rnd (.fin qa) (.fin qb) = true → qa = qb
-
-theorem almostEq_refl (rnd : Rat → Rat) (h : RndOK rnd) (q : Rat) : almostEq rnd (.fin q) (.fin q) = true := by
-  have hz : q - q = 0 := by grind
-  simp [almostEq, hz, h.1, absR, h.2]
-
-theorem cv_eq_kcmp (rnd : Rat → Rat) (hr : RndOK rnd) (op : SortOp) (asc : Bool) (a b : Val)
-    (ha : FinV rnd op a) (hb : FinV rnd op b) (hs : Sep rnd op a b) :
+theorem cv_eq_kcmp (rnd : Rat → Rat) (op : SortOp) (asc : Bool) (a b : Val) :
     compareValues rnd a b asc op = kcmp asc (keyOf rnd op a) (keyOf rnd op b) := by
-  unfold compareValues keyOf
+  unfold compareValues compareValuesWith keyOf
   cases hra : getRank a op <;> cases hrb : getRank b op
   · -- numeric / numeric
-    rcases ha hra with ⟨qa, hqa⟩
-    rcases hb hrb with ⟨qb, hqb⟩
-    have hsep := hs qa qb hqa hqb hra hrb
-    simp only [hqa, hqb, Rank.toNat, kcmp]
+    rcases numeric_floatOf rnd op a hra with ⟨fa, hfa⟩
+    rcases numeric_floatOf rnd op b hrb with ⟨fb, hfb⟩
+    simp only [hfa, hfb, Rank.toNat, kcmp]
     simp only [Nat.lt_irrefl, if_false, reduceCtorEq, Bool.false_and, Bool.and_false, decide_false, Bool.false_eq_true,
       decide_eq_true_eq]
-    unfold compareFloat c3
-    by_cases hae : almostEq rnd (.fin qa) (.fin qb) = true
-    · have := hsep hae
-      subst this
-      cases asc <;> simp [hae, flipIf]
-    · have hne : qa ≠ qb := by
-        intro e; subst e; exact hae (almostEq_refl rnd hr qa)
-      cases asc <;> simp [hae, hne, flipIf, Flt.lt]
-  · -- numeric / string
-    rcases ha hra with ⟨qa, hqa⟩
-    cases asc <;> simp [hqa, Rank.toNat, kcmp, flipIf]
-  · rcases ha hra with ⟨qa, hqa⟩
-    simp [hqa, kcmp]
-  · rcases hb hrb with ⟨qb, hqb⟩
-    cases asc <;> simp [hqb, Rank.toNat, kcmp, flipIf]
+    rw [compareFloat_eq_c3]
+    cases asc <;> simp [flipIf]
+  · rcases numeric_floatOf rnd op a hra with ⟨fa, hfa⟩
+    cases asc <;> simp [hfa, Rank.toNat, kcmp, flipIf]
+  · rcases numeric_floatOf rnd op a hra with ⟨fa, hfa⟩
+    simp [hfa, kcmp]
+  · rcases numeric_floatOf rnd op b hrb with ⟨fb, hfb⟩
+    cases asc <;> simp [hfb, Rank.toNat, kcmp, flipIf]
   · cases asc <;> simp [Rank.toNat, kcmp, flipIf, compareString, c3]
   · simp [kcmp]
-  · rcases hb hrb with ⟨qb, hqb⟩
-    simp [hqb, kcmp]
+  · rcases numeric_floatOf rnd op b hrb with ⟨fb, hfb⟩
+    simp [hfb, kcmp]
   · simp [kcmp]
   · simp [kcmp]
-
-/-- the guard, position by position -/
-def PosSep (rnd : Rat → Rat) : List (Bool × SortOp) → List Val → List Val → Prop
-  | k :: ks, x :: xs, y :: ys => FinV rnd k.2 x ∧ FinV rnd k.2 y ∧ Sep rnd k.2 x y ∧ PosSep rnd ks xs ys
-  | _, _, _ => True
 
 def keysOf (rnd : Rat → Rat) : List (Bool × SortOp) → List Val → List K
   | k :: ks, x :: xs => keyOf rnd k.2 x :: keysOf rnd ks xs
@@ -89,39 +74,35 @@ theorem keysOf_length (rnd : Rat → Rat) : ∀ (ks : List (Bool × SortOp)) (r 
     simp only [keysOf, List.length_cons, List.map_cons] at h ⊢
     rw [keysOf_length rnd ks xs (by omega)]
 
-theorem less_eq_klex (rnd : Rat → Rat) (hr : RndOK rnd) : ∀ (ks : List (Bool × SortOp)) (a b : List Val),
-    a.length = ks.length → b.length = ks.length → PosSep rnd ks a b →
+theorem less_eq_klex (rnd : Rat → Rat) : ∀ (ks : List (Bool × SortOp)) (a b : List Val),
+    a.length = ks.length → b.length = ks.length →
     less rnd ks a b = (klex (ks.map (·.1)) (keysOf rnd ks a) (keysOf rnd ks b) == .less)
-  | [], _, _, _, _, _ => by simp [less, klex]
-  | _ :: _, [], _, h, _, _ => by simp at h
-  | _ :: _, _ :: _, [], _, h, _ => by simp at h
-  | (asc, op) :: ks, x :: xs, y :: ys, hx, hy, hp => by
-    simp only [PosSep] at hp
-    simp only [less, keysOf, List.map_cons, klex]
-    rw [cv_eq_kcmp rnd hr op asc x y hp.1 hp.2.1 hp.2.2.1]
+  | [], _, _, _, _ => by simp [less, lessWith, klex]
+  | _ :: _, [], _, h, _ => by simp at h
+  | _ :: _, _ :: _, [], _, h => by simp at h
+  | (asc, op) :: ks, x :: xs, y :: ys, hx, hy => by
+    have hcv := cv_eq_kcmp rnd op asc x y
+    unfold compareValues at hcv
+    simp only [less, lessWith, keysOf, List.map_cons, klex]
+    rw [hcv]
     simp only [List.length_cons, Nat.add_right_cancel_iff] at hx hy
     cases h : kcmp asc (keyOf rnd op x) (keyOf rnd op y) with
-    | equal => simp only []; exact less_eq_klex rnd hr ks xs ys hx hy hp.2.2.2
+    | equal => simp only []; exact less_eq_klex rnd ks xs ys hx hy
     | less => simp
     | greater => simp
 
-/-- strict-weak-order axioms for `less` on three records that satisfy the guard pairwise -/
-theorem less_swo (rnd : Rat → Rat) (hr : RndOK rnd) (ks : List (Bool × SortOp)) (a b c : List Val)
-    (ha : a.length = ks.length) (hb : b.length = ks.length) (hc : c.length = ks.length)
-    (hg : ∀ x y, (x = a ∨ x = b ∨ x = c) → (y = a ∨ y = b ∨ y = c) → PosSep rnd ks x y) :
+/-- strict-weak-order axioms for `less` on any three records of the right length -/
+theorem less_swo (rnd : Rat → Rat) (ks : List (Bool × SortOp)) (a b c : List Val)
+    (ha : a.length = ks.length) (hb : b.length = ks.length) (hc : c.length = ks.length) :
     less rnd ks a a = false ∧
     (less rnd ks a b = true → less rnd ks b c = true → less rnd ks a c = true) ∧
     (less rnd ks a b = false → less rnd ks b a = false → less rnd ks b c = false → less rnd ks c b = false →
       less rnd ks a c = false ∧ less rnd ks c a = false) := by
-  have A : a = a ∨ a = b ∨ a = c := Or.inl rfl
-  have B : b = a ∨ b = b ∨ b = c := Or.inr (Or.inl rfl)
-  have C : c = a ∨ c = b ∨ c = c := Or.inr (Or.inr rfl)
   have kswo := klex_swo (ks.map (·.1)) (keysOf rnd ks a) (keysOf rnd ks b) (keysOf rnd ks c)
     (keysOf_length rnd ks a ha) (keysOf_length rnd ks b hb) (keysOf_length rnd ks c hc)
-  rw [less_eq_klex rnd hr ks a a ha ha (hg a a A A), less_eq_klex rnd hr ks a b ha hb (hg a b A B),
-    less_eq_klex rnd hr ks b c hb hc (hg b c B C), less_eq_klex rnd hr ks a c ha hc (hg a c A C),
-    less_eq_klex rnd hr ks b a hb ha (hg b a B A), less_eq_klex rnd hr ks c b hc hb (hg c b C B),
-    less_eq_klex rnd hr ks c a hc ha (hg c a C A)]
+  rw [less_eq_klex rnd ks a a ha ha, less_eq_klex rnd ks a b ha hb, less_eq_klex rnd ks b c hb hc,
+    less_eq_klex rnd ks a c ha hc, less_eq_klex rnd ks b a hb ha, less_eq_klex rnd ks c b hc hb,
+    less_eq_klex rnd ks c a hc ha]
   simp only [beq_iff_eq, beq_eq_false_iff_ne, ne_eq]
   exact ⟨kswo.1, kswo.2.1, kswo.2.2⟩
 
